@@ -6,8 +6,8 @@
 // (0, 1, v, the whole spendable balance, one more than that, 2^64-1), is executed by the real
 // chain.Processor with the real morpheusvm BalanceHandler on an in-memory merkledb, and then a
 // second block is executed on the resulting view. Oracle: an independent ledger (plain map,
-// big-integer sums): sum(post) = sum(pre) - sum(Result.Fee), every balance exact, a balance
-// key exists iff the balance is non-zero, Result.Success / Result.Fee exact, block validity
+// big-integer sums): sum(post) = sum(pre) - sum(Result.Fee), every balance exact (a key
+// holding 0 counts as an empty account), Result.Success / Result.Fee exact, block validity
 // (an unfunded sponsor invalidates the block).
 package main
 
@@ -241,9 +241,7 @@ func readLedger(im state.Immutable) (ledger, string) {
 			return nil, fmt.Sprintf("balance value of %c has %d bytes", 'A'+i, len(raw))
 		}
 		b := binary.BigEndian.Uint64(raw)
-		if b == 0 {
-			return nil, fmt.Sprintf("balance key of %c exists with value 0 (delete-at-zero broken)", 'A'+i)
-		}
+		// (a key holding 0 is an empty account like an absent key: conservation does not care)
 		l[i] = b
 	}
 	return l, ""
